@@ -171,6 +171,12 @@ def flat_oracle(meta, impl):
     """demands of the property text on the implementation alone, for tagged flat cases; returns (sig, text) or None"""
     tag = meta["tag"]
     acc = impl.startswith("accept")
+    if acc and tag != "bytes":
+        firsts = [l.strip(b" \t").lower().split()[:1] for l in meta["conf"].split(b"\n")]
+        for it in meta["schema"].split(","):
+            kd, key = it.split(":")
+            if kd.endswith("!") and [G.unhx(key).lower()] not in firsts:
+                return ("strict:required-keyword-missing-accepted", "keyword %r is looked up with parse_required, is absent, and the configuration is accepted" % G.unhx(key))
     if tag in ("unknown-keyword", "misspelt", "brace") and acc:
         return ("strict:%s-accepted" % tag, "a configuration with %s is accepted" % {"unknown-keyword": "a keyword that the context does not know",
                 "misspelt": "a misspelt keyword", "brace": "a stray brace"}[tag])
@@ -189,7 +195,8 @@ def value_oracle(meta, impl):
         return None
     lines = conf.split(b"\n")
     for (kind, key), v in zip(sch, vals):
-        if kind not in ("R", "I", "V") and kind[0] != "N":
+        kind = kind.rstrip("!")
+        if kind not in ("R", "I", "V") and kind[0] not in "NT":
             continue
         if v == "-":
             continue
@@ -203,6 +210,15 @@ def value_oracle(meta, impl):
                 return ("strict:scalar:text-after-number", "keyword %r: value text %r is not one number, accepted as %s" % (key, text, v))
             if float(text.strip(ISSPACE)) != float.fromhex(v):
                 return ("value:real", "keyword %r: value text %r read as %s" % (key, text, v))
+        elif kind[0] == "T":
+            n = int(kind[1:])
+            t = text.strip(ISSPACE)
+            inner = t[1:-1].split(b",") if t.startswith(b"(") and t.endswith(b")") else None
+            got = [float.fromhex(x) for x in v.strip("()").split(";") if x]
+            if inner is None or len(inner) != n or not all(is_number_text(x) for x in inner):
+                return ("strict:tuple:malformed-accepted", "keyword %r: value text %r is not a tuple of %d numbers, accepted as %s" % (key, text, n, got))
+            if [float(x.strip(ISSPACE)) for x in inner] != got:
+                return ("value:tuple", "keyword %r: value text %r read as %s" % (key, text, got))
         elif kind == "I":
             if not is_int_text(text):
                 return ("strict:scalar:text-after-number", "keyword %r: value text %r is not one integer, accepted as %s" % (key, text, v))
